@@ -281,3 +281,18 @@ contract("ExpandingBloomFilter.__load", contexts=_XALL, properties=["C05", "C09"
                   ("each_sub_filter_is_its_record",
                    "all(" + _XF(_XLOADED.format(S=_XSTRIDE)) +
                    " for q in range(0, len(self._blooms)))")])
+
+contract("ExpandingBloomFilter.export@path", contexts=_XALL, properties=["C05", "C06", "C09", "C01"],
+         params={"file": "key"}, requires=_XREQ + [("a_path_is_given", "isinstance(file, str) and file != ''")], modifies=["fs"],
+         ensures=[("file_holds_exactly_the_documented_export",
+                   f"file_exists(resolve(file)) and len(file_bytes(resolve(file))) == smul(len(self._blooms), {_XSTRIDE}) + 28 and "
+                   "exp_image(self, file_bytes(resolve(file)), 0)")])
+
+from pyvc.api import CONTRACTS as _C  # noqa: E402
+_xl = _C["ExpandingBloomFilter.__load"]
+_XP = lambda t: _re.sub(r"\bfile\b", "file_bytes(resolve(file))", t)   # noqa: E731
+contract("ExpandingBloomFilter.__load@path", contexts=_XALL, properties=["C05", "C09", "C01"],
+         params={"file": "key"},
+         requires=[("path_is_text", "isinstance(file, str)"), ("file_is_there", "file_exists(resolve(file))")]
+         + [(n, _XP(t)) for n, t in _xl.requires],
+         modifies=list(_xl.modifies), rebinds=["self._blooms"], ensures=[(n, _XP(t)) for n, t in _xl.ensures])
